@@ -35,6 +35,10 @@ def run(ctx, gen_status):
         N = max([x for b in bs for x in b] + [5]) + 1
         eqv.append({'seed': r.randint(0, 10**6), 'N': N, 'batches': bs, 'maxphys': r.randint(1, 5), 'mode': r.choice(['hooks', 'hooks', 'ghost', 'functorch']),
                     'red': r.choice(['mean', 'sum']), 'acc': r.choice(['rdp', 'prv']), 'nm': r.choice([0.0, 1.3]), 'epochs': r.choice([1, 2]), 'prefetch': r.random() < 0.5})
+    # a training loop that stops each epoch after a fixed number of logical steps ("max_steps reached": break) while the sampler has run ahead
+    for mode in ('hooks', 'ghost'):
+        eqv.append({'seed': 5, 'N': 14, 'batches': [[0, 1, 2, 3, 4], [5, 6, 7], [8, 9], [13, 1, 2, 10, 11, 12]], 'maxphys': 2, 'mode': mode, 'red': 'mean', 'acc': 'rdp',
+                    'nm': 1.3, 'epochs': 3, 'prefetch': True, 'stop_after': 2})
     # corner: an empty logical batch followed by a batch that is split, with the sampler running ahead of training
     eqv.append({'seed': 4, 'N': 12, 'batches': [[0, 1], [], [2, 3, 4, 5, 6], [7]], 'maxphys': 2, 'mode': 'hooks', 'red': 'mean', 'acc': 'rdp', 'nm': 1.3, 'epochs': 1, 'prefetch': True})
     res = vlib.run_impl('bmm_equiv.py', {'equiv': eqv, 'sampler': samp}, timeout=7200)
